@@ -80,6 +80,7 @@ pub fn block_json(block: &Block) -> J {
         ("spec", J::s(format!("{:?}", block.spec))),
         ("disable_nonce_check", J::Bool(block.disable_nonce_check)),
         ("basefee", J::n(block.env.basefee as usize)),
+        ("beneficiary", J::s(format!("{:?}", block.env.beneficiary))),
         ("beneficiary_pre", J::s(format!("{:?}", block.db.accounts.get(&block.env.beneficiary).map(|a| (a.info.balance, a.info.nonce, a.info.code_hash))))),
         ("txs", J::Arr(block.desc.iter().map(|d| J::s(d.clone())).collect())),
         ("safety", J::s(format!("{:?}", block.safety))),
@@ -231,6 +232,9 @@ pub fn check_block(
         grevm::verif::set_commit_observer(None);
         grevm::verif::set_commit_done_observer(None);
         for ((sched, run), clog) in runs.into_iter().zip(commit_logs.into_iter()) {
+            if std::env::var("GH_DUMP_BENEFICIARY").is_ok() {
+                eprintln!("cfg {} sched {sched:?}\n  expected {:?}\n  actual   {:?}", cfg.describe(), expected.bundle.state.get(&block.env.beneficiary).map(|a| (&a.info, a.status)), run.result.bundle.state.get(&block.env.beneficiary).map(|a| (&a.info, a.status)));
+            }
             stats.commit_events += clog.len() as u64;
             let commit_diff = if reserve_on { None } else { world::check_commit_log(&clog, &expected, &expected_states) };
             if let Some(diff) = commit_diff {
@@ -439,6 +443,7 @@ pub fn cmd_faults(args: &Args) -> J {
     let mut samples = Vec::new();
     let mut distinct = std::collections::BTreeSet::new();
     let cfg = RunCfg::parallel(workers);
+    let seq_cfg = RunCfg { workers: 1, min_parallel_txs: 0, force_sequential: true, entry_fallback: false };
     for case in 0..cases {
         let family = families[(case as usize) % families.len()].clone();
         let n_txs = 2 + case_rng(seed ^ 99, &family, case).below(max_txs - 1);
@@ -453,6 +458,13 @@ pub fn cmd_faults(args: &Args) -> J {
             let state = grevm::ParallelState::new(probe.db.clone(), true, false);
             let mut rr = case_rng(seed ^ 0xFA, &family, case);
             let (_run, st) = world::run_grevm_on(&probe, &cfg, Some((Strategy::Random, rr.next())), state);
+            if let Some(st) = st {
+                keys.extend(st.database.touched.lock().unwrap().iter().cloned());
+            }
+            // and on the sequential path (what a block below the parallel threshold, a forced
+            // sequential run or a suffix replay reads)
+            let state = grevm::ParallelState::new(probe.db.clone(), true, false);
+            let (_run, st) = world::run_grevm_on(&probe, &seq_cfg, None, state);
             if let Some(st) = st {
                 keys.extend(st.database.touched.lock().unwrap().iter().cloned());
             }
@@ -477,9 +489,9 @@ pub fn cmd_faults(args: &Args) -> J {
                     in_order_errors += 1;
                 }
                 distinct.insert(format!("{family}/{case}/{key:?}/{mode:?}"));
-                for round in 0..2 {
-                    let sched = if round == 0 { None } else { Some((Strategy::Random, sched_rng.next())) };
-                    let run = world::run_grevm(&fb, &cfg, sched.clone());
+                for round in 0..3 {
+                    let sched = if round == 1 { Some((Strategy::Random, sched_rng.next())) } else { None };
+                    let run = world::run_grevm(&fb, if round == 2 { &seq_cfg } else { &cfg }, sched.clone());
                     let verdict: Option<String> = match mode {
                         FaultMode::Persistent => {
                             if run.result.status.is_ok() && expected.status.is_err() {
@@ -548,6 +560,7 @@ pub fn cmd_faults(args: &Args) -> J {
                                 ("case", J::n(case as usize)),
                                 ("seed", J::n(seed as usize)),
                                 ("schedule", J::s(format!("{sched:?}"))),
+                                ("config", J::s(if round == 2 { seq_cfg.describe() } else { cfg.describe() })),
                                 ("expected_status", J::s(format!("{:?}", expected.status))),
                                 ("actual_status", J::s(format!("{:?}", run.result.status))),
                                 ("block", block_json(&fb)),
@@ -567,7 +580,7 @@ pub fn cmd_faults(args: &Args) -> J {
         ("cases", J::n(fault_points as usize)),
         ("blocks", J::n(cases as usize)),
         ("distinct_nontrivial", J::n(distinct.len())),
-        ("conforming", J::n(fault_points as usize * 2 - divergences.len())),
+        ("conforming", J::n(fault_points as usize * 3 - divergences.len())),
         ("divergences", J::Arr(divergences)),
         (
             "distribution",
@@ -594,7 +607,7 @@ pub fn cmd_witness(args: &Args) -> J {
     let mut divergences = Vec::new();
     let mut samples = Vec::new();
     let mut ran = 0usize;
-    let names = ["F2-stale-attempt-fatal", "F5-reexecution-after-abort", "vanished-read-source"];
+    let names = ["F2-stale-attempt-fatal", "F5-reexecution-after-abort", "vanished-read-source", "F8-sequential-beneficiary-fault"];
     for name in names {
         if !only.is_empty() && only != name {
             continue;
@@ -603,6 +616,11 @@ pub fn cmd_witness(args: &Args) -> J {
         let (block, strategy, fault_free): (Block, &str, Option<Block>) = match name {
             "F2-stale-attempt-fatal" => (crate::blocks::gen_stale_fatal(&mut rng), "stale-attempt-ends-at-commit-head", None),
             "vanished-read-source" => (crate::blocks::gen_vanished_source(&mut rng), "read-source-vanishes-before-validation", None),
+            "F8-sequential-beneficiary-fault" => {
+                let mut b = crate::blocks::gen_invalid_then_transfers(&mut rng);
+                b.db.fault = Some((Key::Basic(b.env.beneficiary), FaultMode::Persistent));
+                (b, "sequential-path", None)
+            }
             _ => {
                 let mut b = crate::blocks::gen_coded_sender(&mut rng);
                 let clean = b.clone();
@@ -613,8 +631,18 @@ pub fn cmd_witness(args: &Args) -> J {
         };
         ran += 1;
         let expected = world::oracle(&block);
-        let cfg = RunCfg::parallel(2);
-        let run = world::run_grevm(&block, &cfg, Some((directed(strategy).unwrap(), 1)));
+        // every path must report what in-order execution with the fee recipient loaded up front
+        // reports (the sequential paths take no schedule)
+        let run = if strategy == "sequential-path" {
+            let seq = RunCfg { workers: 1, min_parallel_txs: 0, force_sequential: true, entry_fallback: false };
+            let run = world::run_grevm(&block, &seq, None);
+            let below = world::run_grevm(&block, &RunCfg { workers: 2, min_parallel_txs: 64, force_sequential: false, entry_fallback: false }, None);
+            let entry = world::run_grevm(&block, &RunCfg { workers: 2, min_parallel_txs: 0, force_sequential: false, entry_fallback: true }, None);
+            let par = world::run_grevm(&block, &RunCfg::parallel(2), None);
+            [below, entry, par].into_iter().find(|r| world::compare_runs(&expected, &r.result).is_some()).unwrap_or(run)
+        } else {
+            world::run_grevm(&block, &RunCfg::parallel(2), Some((directed(strategy).unwrap(), 1)))
+        };
         let stall = run.report.as_ref().and_then(|r| r.stall.clone());
         if std::env::var("GH_DUMP_TRACE").is_ok() {
             eprintln!("--- witness {name}: status {:?}", run.result.status);
